@@ -213,6 +213,18 @@ def table():
             return ss[0].pipe(ops.amb(ss[1])) if via == "ops" else rx.amb(*ss)
         return dict(build=build, coq=f"x_amb {n}%nat", n_static=n, spec=("amb", n, via), **ZT)
     T["amb"] = g_amb
+
+    def g_take_until(rng):
+        def build(env, ss):
+            return ss[0].pipe(ops.take_until(ss[1]))
+        return dict(build=build, coq="x_take_until", n_static=2, spec=("take_until",), **ZT)
+    T["take_until"] = g_take_until
+
+    def g_skip_until(rng):
+        def build(env, ss):
+            return ss[0].pipe(ops.skip_until(ss[1]))
+        return dict(build=build, coq="x_skip_until", n_static=2, spec=("skip_until",), **ZT)
+    T["skip_until"] = g_skip_until
     return T
 
 
